@@ -139,6 +139,25 @@ func c06Eval(base, ref, kind string) (*fw.Finding, bool) {
 		if !res.ok || res.obs != uo {
 			return fw.F("c06:absolute-not-self", s, "%s: the serialization of a URL must resolve to itself against any base, got ok=%v %q", how, res.ok, res.obs.Href), true
 		}
+		// the law is about every Parser: with one that refuses anything irregular, a serialization it accepts on its
+		// own must be accepted, unchanged, against every base it accepts - the base must not be looked at
+		var f2 *fw.Finding
+		_ = safely(func() {
+			su, e1 := c15Fail.Parse(ref)
+			sb, e2 := c15Fail.Parse(base)
+			if e1 != nil || e2 != nil {
+				return
+			}
+			so := impl.ObserveFull(su)
+			r1, e3 := c15Fail.ParseRef(base, ref)
+			r2, e4 := sb.Parse(ref)
+			if e3 != nil || e4 != nil || impl.ObserveFull(r1) != so || impl.ObserveFull(r2) != so {
+				f2 = fw.F("c06:absolute-not-self", s, "%s: under a parser with fail-on-validation-error, which accepts both strings on their own, the serialization no longer resolves to itself: ParseRef err=%v, base.Parse err=%v", how, e3, e4)
+			}
+		})
+		if f2 != nil {
+			return f2, true
+		}
 	}
 	return nil, res.ok
 }
